@@ -11,8 +11,8 @@
    `Ok` in a conclusion excludes both `Panic` (a Go index/slice panic or a failed
    assert) and `OutOfFuel` (the fuel the model gives its loops: |s|+1 for the
    loop of shAtomInternal and of ShAtoms, |s|+2 for ShToken). *)
-From PV Require Import Lib.Bytes Model.ShTok Spec.ShPartition
-  Proofs.ShTok Proofs.ShTokLoop Proofs.ShTokSpec.
+From PV Require Import Lib.Bytes Model.ShTok Spec.ShPartition Spec.ShWords
+  Proofs.ShTok Proofs.ShTokLoop Proofs.ShTokSpec Proofs.ShTokSplit.
 Open Scope N_scope.
 
 Definition advance_contract (expr : str -> option (str * str)) : Prop :=
@@ -134,6 +134,36 @@ Theorem C10sh_shtokens_meet_spec :
     tokens_ok s (map (fun p => (tok_text (fst p), snd p)) l) rest = true.
 Proof. exact sh_tokens_meet_spec. Qed.
 Print Assumptions C10sh_shtokens_meet_spec.
+
+(* ---------- splitIntoShellTokens (shell.go): command text -> token strings ---------- *)
+
+(* For ALL texts: splitIntoShellTokens succeeds (no panic, fuel suffices) and
+   (1) the token strings are, in order, the texts of the tokens that repeated
+       ShToken calls return; none is empty; every token is the concatenation of
+       its (non-empty list of) atoms, and these form a chain from the plain
+       quoting state (Spec.ShWords.atoms_chain): an atom produced outside quotes,
+       backticks and subshells is never a space atom, and unless it is a make
+       expression ${...}, a shell expression $$x / $${...} or a comment, it has no
+       blank except directly after a backslash -- blanks inside a token lie
+       inside quotes, backticks, $$(...), ${...}, $${...}, a comment, or are escaped;
+   (2) text = gap_0 ++ tok_1 ++ gap_1 ++ ... ++ tok_n ++ gap_n ++ rest where every
+       gap consists of blanks and copies of ${_ULIMIT_CMD} only. *)
+Theorem C10sh_split_tokens :
+  forall expr, advance_contract expr ->
+  forall text : str,
+  exists toks rest,
+    split_tokens expr text = Ok (toks, rest) /\
+    exists l in_word,
+      sh_tokens expr text = Ok (l, (in_word, rest)) /\
+      toks = map (fun p => tok_text (fst p)) l /\
+      Forall (fun t => t <> []) toks /\
+      Forall (fun p => tok_text (fst p) = concat (map a_text (tok_atoms (fst p))) /\
+                       tok_atoms (fst p) <> [] /\
+                       atoms_chain QPlain (tok_atoms (fst p))) l /\
+      exists gaps, length gaps = S (length toks) /\ Forall gap_ok gaps /\
+                   text = weave gaps toks rest.
+Proof. exact split_tokens_ok. Qed.
+Print Assumptions C10sh_split_tokens.
 
 (* ---------- the hypothesis is satisfiable ---------- *)
 
